@@ -6,7 +6,7 @@ BOUNDS = {
     "quick": "binary & | ^ - on leaf fibers with 0..2 stored elements each (all coordinates and values symbolic, value 0 = explicit default); "
              "interior (sub-fiber payload, tensor-owned) operands with up to 2x2 elements; 3-ary union/intersection with <= 4 stored elements in total; "
              "leader-follower with 2+2+1; mixed tuple arity 2 vs 2; 'U' rank over an active range of span <= 3; every n-ary result traversed twice; leader-follower with a 'U' leader; 3-ary union / intersection of fibers with fiber payloads (fresh empty fiber per absent side); mixed arity 2 vs 3; pinned counterparts of the slow interior obligations",
-    "thorough": "binary operators up to 3x3 (leaf) and 2x2 (interior); 3-ary with <= 6 stored elements, 4-ary with <= 4; mixed arity up to 3 vs 2; 'U' span <= 4",
+    "thorough": "binary operators up to 3x3 (leaf) and up to [2,1] x [1] (interior); 3-ary with <= 5 stored elements (union <= 4), 4-ary with <= 4; mixed arity up to 3 vs 2; 'U' span <= 4",
 }
 OUTSIDE = "k > 4 operands, more stored elements than the tier bound, non-integer coordinate components, floats"
 ASSUMPTIONS = ["A1 integers only", "operands are ordered/unique fibers built by the public constructor (strictly increasing coordinates)"]
